@@ -184,6 +184,37 @@ func solveObligation(sc *smtScript, ob *Obligation, opts solveOpts) {
 			nontrivial++
 		}
 	}
+	if ob.Kind == "strpos" {
+		// every script must be unsat
+		ob.Status, ob.Solver = "discharged", ""
+		used := map[string]bool{}
+		var details []string
+		for i, sc := range ob.scripts {
+			tmp := &Obligation{Name: fmt.Sprintf("%s.path%d", ob.Name, i), Kind: "lemma", VCs: []VC{ob.VCs[i]}, Detail: sc}
+			solveLemma(tmp, opts)
+			ob.TimeS += tmp.TimeS
+			ob.SmtSize += tmp.SmtSize
+			used[tmp.Solver] = true
+			details = append(details, tmp.Detail)
+			if tmp.Status != "discharged" {
+				ob.Status = tmp.Status
+				ob.Model = tmp.Model
+				ob.Trace = ob.VCs[i].trace
+				if line, ok := lemmaModelLine(tmp.Model); ok {
+					plain, _ := splitMarked(line)
+					ob.Inputs = map[string]string{"root": smtStr(plain)}
+				}
+				ob.Detail = fmt.Sprintf("path %d (%s): %s", i, ob.VCs[i].note, tmp.Detail)
+				break
+			}
+		}
+		delete(used, "")
+		ob.Solver = strings.Join(sortedKeys(used), "+")
+		if ob.Status == "discharged" {
+			ob.Detail = strings.Join(details, " ; ")
+		}
+		return
+	}
 	if ob.Kind == "subset" {
 		ob.Status, ob.Solver = "failed", "structural"
 		ob.Detail = "outside the verified subset: " + ob.VCs[0].note
@@ -329,6 +360,17 @@ func solveObligation(sc *smtScript, ob *Obligation, opts solveOpts) {
 	case satIdx >= 0:
 		ob.Status = "failed"
 		ob.Model = modelFor(sc, ob, satIdx, best[satIdx].solver, opts)
+		ob.Inputs = parseGetValue(ob.Model, ob.inputTerms)
+		k2 := 0
+		for _, vc := range ob.VCs {
+			if vc.goal == "true" {
+				continue
+			}
+			if k2 == satIdx {
+				ob.Trace = vc.trace
+			}
+			k2++
+		}
 		// note of the failing path
 		k := 0
 		for _, vc := range ob.VCs {
@@ -359,7 +401,28 @@ func modelFor(sc *smtScript, ob *Obligation, idx int, solver string, opts solveO
 		}
 		k++
 	}
-	text := sc.render(ob, true, only)
+	text := sc.render(ob, false, only)
+	// ask for the values of the function's inputs instead of the whole model
+	var terms []string
+	used := map[string]bool{}
+	symbolsIn(text, used)
+	for _, k := range sortedKeys(ob.inputTerms) {
+		t := ob.inputTerms[k]
+		ok := true
+		need := map[string]bool{}
+		symbolsIn(t, need)
+		for sym := range need {
+			if _, declared := sc.decls[sym]; declared && !used[sym] {
+				ok = false
+			}
+		}
+		if ok {
+			terms = append(terms, t)
+		}
+	}
+	if len(terms) > 0 {
+		text = strings.Replace(text, "(check-sat)\n", "(check-sat)\n(get-value ("+strings.Join(terms, " ")+"))\n", 1)
+	}
 	file := filepath.Join(opts.workDir, sanitizeFile(ob.Name)+".model.smt2")
 	os.WriteFile(file, []byte(text), 0o644)
 	order := []string{solver, "z3-new", "z3"}
@@ -414,4 +477,183 @@ func solveAll(sc *smtScript, obs []*Obligation, opts solveOpts) {
 	}
 	wg.Wait()
 	sort.SliceStable(obs, func(i, j int) bool { return obs[i].Name < obs[j].Name })
+}
+
+// solveLemma: a closed script with one check-sat that must be unsat.
+func solveLemma(ob *Obligation, opts solveOpts) {
+	text := ob.Detail
+	ob.Detail = ""
+	if text == "" {
+		ob.Status, ob.Solver = "failed", "structural"
+		ob.Detail = ob.VCs[0].note
+		return
+	}
+	ob.SmtSize = len(text)
+	file := filepath.Join(opts.workDir, sanitizeFile(ob.Name)+".smt2")
+	os.WriteFile(file, []byte(text), 0o644)
+	ctx, cancel := context.WithCancel(context.Background())
+	defer cancel()
+	type sres struct {
+		name string
+		st   []string
+		secs float64
+	}
+	ch := make(chan sres, len(solvers))
+	for _, sp := range solvers {
+		sp := sp
+		go func() {
+			out, secs := runSolver(ctx, sp, file, opts.timeoutS)
+			ch <- sres{sp.name, parseStatuses(out), secs}
+		}()
+	}
+	t0 := time.Now()
+	var raws []string
+	verdict, by := "unknown", ""
+	for range solvers {
+		r := <-ch
+		raws = append(raws, fmt.Sprintf("[%s %.2fs] %s", r.name, r.secs, strings.Join(r.st, ",")))
+		if len(r.st) > 0 && r.st[0] != "unknown" {
+			if verdict == "unknown" {
+				verdict, by = r.st[0], r.name
+				if !opts.all {
+					cancel()
+				}
+			} else if verdict != r.st[0] {
+				ob.Status, ob.Solver = "error", by+"/"+r.name
+				ob.Detail = "solver disagreement: " + strings.Join(raws, " ; ")
+				return
+			}
+		}
+	}
+	ob.TimeS = time.Since(t0).Seconds()
+	ob.Solver = by
+	ob.Detail = strings.Join(raws, " ; ")
+	switch verdict {
+	case "unsat":
+		ob.Status = "discharged"
+		os.Remove(file)
+	case "sat":
+		ob.Status = "failed"
+		mf := filepath.Join(opts.workDir, sanitizeFile(ob.Name)+".model.smt2")
+		os.WriteFile(mf, []byte(text+"(get-value (y))\n"), 0o644)
+		for _, sp := range solvers {
+			if sp.name == by {
+				out, _ := runSolver(context.Background(), sp, mf, opts.timeoutS)
+				ob.Model = out
+			}
+		}
+		ob.Detail = "counterexample line found: " + ob.Detail
+	default:
+		ob.Status = "failed"
+		ob.Detail = "undischarged (no solver decided): " + ob.Detail
+	}
+}
+
+// parseGetValue maps input names to the values printed by (get-value (...)).
+func parseGetValue(out string, inputTerms map[string]string) map[string]string {
+	i := strings.Index(out, "((")
+	if i < 0 {
+		return nil
+	}
+	pairs := sexprPairs(out[i:])
+	res := map[string]string{}
+	for name, t := range inputTerms {
+		for _, p := range pairs {
+			if normSpace(p[0]) == normSpace(t) {
+				res[name] = p[1]
+			}
+		}
+	}
+	return res
+}
+
+func normSpace(s string) string { return strings.Join(strings.Fields(s), " ") }
+
+// sexprPairs parses "((a b) (c d) ...)" into pairs of raw texts.
+func sexprPairs(s string) [][2]string {
+	var out [][2]string
+	s = strings.TrimSpace(s)
+	if !strings.HasPrefix(s, "(") {
+		return nil
+	}
+	i := 1
+	n := len(s)
+	readOne := func() string {
+		for i < n && (s[i] == ' ' || s[i] == '\n' || s[i] == '\t' || s[i] == '\r') {
+			i++
+		}
+		if i >= n {
+			return ""
+		}
+		start := i
+		switch s[i] {
+		case '(':
+			d := 0
+			for i < n {
+				c := s[i]
+				if c == '"' {
+					i++
+					for i < n {
+						if s[i] == '"' {
+							if i+1 < n && s[i+1] == '"' {
+								i += 2
+								continue
+							}
+							break
+						}
+						i++
+					}
+				} else if c == '(' {
+					d++
+				} else if c == ')' {
+					d--
+					if d == 0 {
+						i++
+						return s[start:i]
+					}
+				}
+				i++
+			}
+			return s[start:]
+		case '"':
+			i++
+			for i < n {
+				if s[i] == '"' {
+					if i+1 < n && s[i+1] == '"' {
+						i += 2
+						continue
+					}
+					i++
+					return s[start:i]
+				}
+				i++
+			}
+			return s[start:]
+		default:
+			for i < n && s[i] != ' ' && s[i] != ')' && s[i] != '\n' {
+				i++
+			}
+			return s[start:i]
+		}
+	}
+	for i < n {
+		for i < n && (s[i] == ' ' || s[i] == '\n' || s[i] == '\t' || s[i] == '\r') {
+			i++
+		}
+		if i >= n || s[i] == ')' {
+			break
+		}
+		if s[i] != '(' {
+			break
+		}
+		i++ // into pair
+		a := readOne()
+		b := readOne()
+		for i < n && s[i] != ')' {
+			i++
+		}
+		i++
+		out = append(out, [2]string{a, b})
+	}
+	return out
 }
